@@ -37,6 +37,7 @@ class QuadratureRule:
         """Hash."""
         if self._hash is None:
             self.hash_obj = hashlib.sha1(self.points)
+            self.hash_obj.update(np.ascontiguousarray(self.weights))
             self._hash = int(self.hash_obj.hexdigest(), 32)
         return self._hash
 
@@ -51,7 +52,7 @@ class QuadratureRule:
             This identifier is used to provide unique names to tables and symbols
             in generated code.
         """
-        return self.hash_obj.hexdigest()[-3:]
+        return self.hash_obj.hexdigest()[-10:]
 
 
 def create_quadrature_points_and_weights(
